@@ -19,7 +19,7 @@ RULE = RULE + ' Also: cylindrical / spherical vectors with one and two component
 ASSUMPTIONS = ["vf/geom_ref.py transforms (from the definitions; spherical = (r, azimuth, polar) in this core)"]
 N = {"quick": dict(vectors=320, fields=64), "thorough": dict(vectors=4800, fields=640)}
 MIN_REACH = {"quick": {"rebase_to_cyl": 250, "rebase_to_sph": 250, "roundtrip": 500, "dot_magnitude": 500, "scale": 400,
-                       "from_curvilinear": 400, "field_value": 300, "refusal": 30, "symbolic": 20, "short_curvilinear_vector": 600},
+                       "from_curvilinear": 400, "field_value": 300, "refusal": 30, "symbolic": 20, "short_curvilinear_vector": 600, "field_value_short_point": 100},
              "thorough": {"rebase_to_cyl": 4000, "roundtrip": 8000, "field_value": 3000}}
 SHARD_TIMEOUT = {"quick": 600, "thorough": 3000}
 
@@ -251,6 +251,22 @@ def field_case(r, sy, rec):
             if not G.close(got, want, 1e-8):
                 rec.violation(f"field-value:cart->{name}", f"field {e}: value {want} at {p}, rebased field gives {got} at {fwd(*p)}", case)
                 break
+        # points given with two coordinates (the third one is zero): a point in the plane z = 0
+        if name == "cyl":
+            for _ in range(2):
+                p2 = [float(c) for c in rand_cart(r)][:2]
+                own = fl(e.subs(dict(zip(xs, p2 + [0.0]))))
+                rho_, az_, _ = fwd(p2[0], p2[1], 0.0)
+                rec.hit("field_value_short_point")
+                try:
+                    v_c = fl(f(CartesianPoint(*p2)))
+                    v_s = fl(g(mk_point(rho_, az_)))
+                except Exception as x:  # pylint: disable=broad-except
+                    rec.violation(f"field-value:short-point:{type(x).__name__}", f"field {e} at the two-coordinate point {p2}: {type(x).__name__}: {str(x)[:100]}", case)
+                    break
+                if not (G.close(v_c, own, 1e-8) and G.close(v_s, own, 1e-8)):
+                    rec.violation("field-value:short-point", f"field {e}: own value {own} at ({p2[0]}, {p2[1]}, 0); the field gives {v_c} at the two-coordinate Cartesian point and the rebased field {v_s} at the two-coordinate cylinder point", case)
+                    break
         # curvilinear field -> Cartesian
         cs = system.coord_system.base_scalars()
         e2 = rand_expr(*cs)
